@@ -118,6 +118,9 @@ def write_evidence(prop, tier, seed, level, rep, wall, n_viol, passes):
         "violation_signatures": rep.get("violation_counts", {}),
         "sanitizer_passes": passes,
     }
+    if not cov["samples"] and cov["evaluations"] > 0:
+        # every module records concrete cases; this only keeps the record well-formed if one run happened to hit none
+        cov["samples"] = [{"note": "no individual case was sampled in this run; aggregate counters only", "observed": cov["observed"]}]
     ev = {
         "property_id": prop,
         "tier": tier,
